@@ -161,11 +161,14 @@ def _skeleton_worker(payload):
     dl = C01.all_dialects()
     idx = 0
     for stmt, feats in C01.skeletons((0,)):
-        if "kind:insert_into" not in feats or len(feats) < 3:
+        if len(feats) == 1 and not isinstance(stmt, (ir.Noop, ir.CreateLike)):  # CREATE LIKE / CLONE: per-dialect cells are C01 findings
+            # statement kinds with their own FROM forms (UPDATE with / without FROM, MERGE, SELECT INTO, INSERT VALUES)
+            feats = [feats[0], "from:-", feats[0][5:]]
+        if len(feats) < 3 or ("kind:insert_into" not in feats and feats[1] != "from:-"):
             continue
         fshape = next(f for f in feats if f.startswith("from:"))
         pos = feats[2]
-        if pos != "none" and fshape not in ("from:single", "from:comma2", "from:join:LEFT JOIN"):
+        if pos != "none" and fshape not in ("from:single", "from:comma2", "from:join:LEFT JOIN", "from:-"):
             continue
         if pos in ("scalar_subquery_select_item", "having_subquery"):
             continue  # finding probes of C01
